@@ -169,10 +169,10 @@ class SLCDriver(CIPDriver):
             UINT.encode(next(self._sequence)),  # transaction identifier
             SLC_FNC_READ,  # function code
             USINT.encode(PCCC_DATA_SIZE[_tag["file_type"]] * _tag["element_count"]),  # byte size
-            USINT.encode(int(_tag["file_number"])),
+            _address_field(_tag["file_number"]),
             PCCC_DATA_TYPE[_tag["file_type"]],
-            USINT.encode(int(_tag["element_number"])),
-            USINT.encode(int(_tag.get("pos_number", 0))),  # sub-element number
+            _address_field(_tag["element_number"]),
+            _address_field(_tag.get("pos_number", 0)),  # sub-element number
         ]
 
         request = SendUnitDataRequestPacket(self._sequence)
@@ -243,10 +243,10 @@ class SLCDriver(CIPDriver):
             UINT.encode(next(self._sequence)),
             SLC_FNC_WRITE,
             USINT.encode(_tag["data_size"] * _tag["element_count"]),
-            USINT.encode(int(_tag["file_number"])),
+            _address_field(_tag["file_number"]),
             PCCC_DATA_TYPE[_tag["file_type"]],
-            USINT.encode(int(_tag["element_number"])),
-            USINT.encode(sub_element),
+            _address_field(_tag["element_number"]),
+            _address_field(sub_element),
             _value,
         ]
         request = SendUnitDataRequestPacket(self._sequence)
@@ -516,6 +516,17 @@ def _get_sys0_info(plc_type):
             "size_element": b"\x23",
             "size_len": b"\x04",
         }
+
+
+def _address_field(value) -> bytes:
+    """
+    One address field (file, element or sub-element number) of a typed logical read/write:
+    a single byte addresses 0-254, 0xFF expands the field to the 16-bit value that follows
+    """
+    value = int(value)
+    if value < 255:
+        return USINT.encode(value)
+    return b"\xff" + UINT.encode(value)
 
 
 def _parse_read_reply(tag, data) -> Tag:
